@@ -1,6 +1,8 @@
 use proc_macro2::{Span, TokenStream};
 use quote::{format_ident, quote};
-use syn::{Data, DeriveInput, Fields, Type};
+use syn::{
+    parse::Parser, punctuated::Punctuated, Data, DeriveInput, Fields, Meta, Token, Type, TypePath,
+};
 
 use crate::helpers::{non_enum_error, HasStrumVariantProperties, HasTypeProperties};
 
@@ -11,20 +13,24 @@ pub fn from_repr_inner(ast: &DeriveInput) -> syn::Result<TokenStream> {
     let vis = &ast.vis;
 
     let mut discriminant_type: Type = syn::parse("usize".parse().unwrap()).unwrap();
-    if let Some(type_path) = ast
-        .get_type_properties()
-        .ok()
-        .and_then(|tp| tp.enum_repr)
-        .and_then(|repr_ts| syn::parse2::<Type>(repr_ts).ok())
-    {
-        if let Type::Path(path) = type_path.clone() {
-            if let Some(seg) = path.path.segments.last() {
-                for t in &[
-                    "u8", "u16", "u32", "u64", "usize", "i8", "i16", "i32", "i64", "isize",
-                ] {
-                    if seg.ident == t {
-                        discriminant_type = type_path;
-                        break;
+    if let Some(repr_ts) = ast.get_type_properties().ok().and_then(|tp| tp.enum_repr) {
+        // The integer type may sit next to other hints, e.g. `#[repr(C, u8)]` or `#[repr(i8, align(4))]`.
+        let hints = Punctuated::<Meta, Token![,]>::parse_terminated
+            .parse2(repr_ts)
+            .unwrap_or_default();
+        for hint in &hints {
+            if let Meta::Path(path) = hint {
+                if let Some(seg) = path.segments.last() {
+                    for t in &[
+                        "u8", "u16", "u32", "u64", "usize", "i8", "i16", "i32", "i64", "isize",
+                    ] {
+                        if seg.ident == t {
+                            discriminant_type = Type::Path(TypePath {
+                                qself: None,
+                                path: path.clone(),
+                            });
+                            break;
+                        }
                     }
                 }
             }
